@@ -10,6 +10,7 @@
 mod dump;
 mod foreign;
 mod native;
+mod zkirfam;
 
 use std::collections::BTreeMap;
 
@@ -121,6 +122,21 @@ fn main() {
                 "c25519fp" => go!(midnight_curves::curve25519::Fp),
                 "c25519fq" => go!(midnight_curves::curve25519::Scalar),
                 f => panic!("unknown emulated field {f}"),
+            }
+        }
+        "zkir" => {
+            let path = spec.params.get("prog").expect("p.prog=<file>").clone();
+            let nin = spec.p_usize_or("nin", 0);
+            let (zr, mut extra) = zkirfam::run(&path, spec.params.get("k").map(|s| s.parse().unwrap()));
+            match zr.prover {
+                Some(prover) => {
+                    let rec: Vec<(bool, F)> = zr.instance.iter().enumerate().map(|(i, v)| (i < nin, *v)).collect();
+                    finish(prover, rec, replay, extra);
+                }
+                None => {
+                    extra["no_circuit"] = J::Bool(true);
+                    println!("{}", json!({"extra": extra, "honest_verify": false, "no_circuit": true}));
+                }
             }
         }
         _ => panic!("unknown family {family}"),
